@@ -952,6 +952,20 @@ def run_options(inp):
                         pb = [x for x in pb if not x.startswith("dup-")]      # ignore_redundant=False asks for the repetition
                     if pb:
                         bad.append(["add_edges", pn, val] + pb)
+                    # whatever the views were asked to repeat, the *language* has each accepted word once (wave 6: an
+                    # enumeration walking the outgoing view listed a word twice after a repeated add_edges)
+                    if starts and starts[0] in r2.V and all(isinstance(x, str) for (_, x, _) in r2.E):
+                        for rep_ in range(2):
+                            for n in range(4):
+                                want = collections.Counter(("".join(w), repr(e)) for w, e in r2.lang(starts[0], n))
+                                got = collections.Counter((w, repr(e)) for w, e in U.capped(A.enumerate_fixed_length_paths(n, with_states=True)))
+                                if got != want:
+                                    bad.append(["add_edges", pn, val, "then enumerate_fixed_length_paths", n, sorted(got.elements())[:6], sorted(want.elements())[:6]])
+                                    break
+                            if rep_ == 0:
+                                # the same edge once more with ignore_redundant=False (both spellings): still one path per word
+                                A.add_edges([(t, h, l)], ignore_redundant=False)
+                                A.add_edges([(t, h, [l])], elist=True, ignore_redundant=False)
                 elif name == "recurrent":
                     r2 = ref.clone(); r2.recurrent()
                     R = A.recurrent(**{pn: val})
